@@ -229,6 +229,11 @@ const OTHER_KINDS: &[ResKind] = &[
     ResKind { ty: "Texture2DArray<float4>", abbr: "ta", read: &["r += (uint){n}.Load(int4(0, 0, 0, 0)).x;"], write: None, is_address: false },
     ResKind { ty: "Texture3D<float4>", abbr: "t3", read: &["r += (uint){n}.Load(int4(0, 0, 0, 0)).x;"], write: None, is_address: false },
     ResKind { ty: "RWTexture2D<float4>", abbr: "rwtex", read: &["r += (uint){n}.Load(int2(0, 0)).x;"], write: Some("{n}[uint2(1, 1)] = float4(1, 1, 1, 1);"), is_address: false },
+    // typed stores of fewer than four components go through one `extend` helper per component count on Metal
+    ResKind { ty: "RWTexture2D<float>", abbr: "rwt1", read: &["{n};"], write: Some("{n}[uint2(1, 1)] = 1.0f;"), is_address: false },
+    ResKind { ty: "RWTexture2D<float2>", abbr: "rwt2", read: &["{n};"], write: Some("{n}[uint2(1, 1)] = float2(1, 1);"), is_address: false },
+    ResKind { ty: "RWTexture2D<float3>", abbr: "rwt3", read: &["{n};"], write: Some("{n}[uint2(1, 1)] = float3(1, 1, 1);"), is_address: false },
+    ResKind { ty: "RWTexture2D<uint2>", abbr: "rwu2", read: &["{n};"], write: Some("{n}[uint2(0, 1)] = uint2(r, 1u);"), is_address: false },
     ResKind { ty: "RWTexture3D<float4>", abbr: "rw3", read: &["{n};"], write: Some("{n}[uint3(0, 0, 0)] = float4(1, 1, 1, 1);"), is_address: false },
     ResKind { ty: "ConstantBuffer<Elem>", abbr: "cbo", read: &["r += {n}.m;"], write: None, is_address: false },
     ResKind { ty: "SamplerState", abbr: "samp", read: &["{n};"], write: None, is_address: false },
